@@ -34,6 +34,7 @@ import (
 	"testing/fstest"
 
 	"github.com/open2b/scriggo"
+	"github.com/open2b/scriggo/native"
 
 	"verif/core"
 )
@@ -71,6 +72,20 @@ func (prop) Drive(d *core.Driver) error {
 			d.T.Sample(cd)
 		}
 	}
+	// systematic families (the same in every tier)
+	fam := 0
+	for _, cd := range g.familyNamePath() {
+		cases = append(cases, core.NewCase(fmt.Sprintf("namepath-%d", fam), cd))
+		fam++
+	}
+	chains := g.familyChains()
+	for i, cd := range chains {
+		cases = append(cases, core.NewCase(fmt.Sprintf("chain-%d", i), cd))
+		if i == 7 {
+			d.T.Sample(cd)
+		}
+	}
+	d.T.Set("cases", map[string]int{"random_programs": nProg, "random_templates": nTmpl, "family_name_path": fam, "family_importer_chains": len(chains)})
 	d.Run(cases, core.RunOpts{})
 	return nil
 }
@@ -175,12 +190,18 @@ func (prop) Work(c core.Case) core.Result {
 	takeHookLog()
 	takeImportLog()
 
-	opts := &scriggo.BuildOptions{AllowGoStmt: cd.Config.GoStmt, Packages: makeImporter(cd.Config.Importer, cd.Config.Pkgs)}
+	var importer native.Importer
+	if cd.Config.Importer == "chain" {
+		importer = makeChainImporter(cd.Config.Chain)
+	} else {
+		importer = makeImporter(cd.Config.Importer, cd.Config.Pkgs)
+	}
+	opts := &scriggo.BuildOptions{AllowGoStmt: cd.Config.GoStmt, Packages: importer}
+	// what the configured importer supplies, by the model of the importer contract
 	sup := newSupplied()
-	if cd.Config.Importer != "nil" {
-		table := allPackages()
-		for _, p := range cd.Config.Pkgs {
-			if pk, ok := table[p]; ok {
+	for _, p := range cd.Config.candidatePaths() {
+		if a := cd.Config.resolve(p); a.Kind == "pkg" {
+			if pk, ok := variantPackage(p, a.Variant); ok {
 				sup.addDecls(pk.Declarations)
 			}
 		}
@@ -253,6 +274,9 @@ func (prop) Work(c core.Case) core.Result {
 		res.Counts["builds_rejected"]++
 		switch cd.Expect {
 		case "fail":
+			if cd.ExpectErr != "" && !panicked && !strings.Contains(err.Error(), cd.ExpectErr) {
+				return viol("the importer that decides the import (model of the CombinedImporter contract) returned the error %q, but Build failed with a different error: %v", cd.ExpectErr, err)
+			}
 			res.Counts["forbidden_rejected"]++
 			res.Sigs = append(res.Sigs, "rejected:"+probeClass(cd.Probe)+"/"+cd.Kind+"/"+cd.Config.Importer)
 			return res
@@ -296,6 +320,15 @@ func (prop) Work(c core.Case) core.Result {
 	for _, n := range callLog {
 		if strings.HasPrefix(n, "FORBIDDEN") {
 			return viol("a function that was never supplied was executed: %s", n)
+		}
+	}
+	for _, want := range cd.ExpectCalls {
+		found := false
+		for _, n := range callLog {
+			found = found || canon(n) == want
+		}
+		if !found && !panicked && runErr == nil {
+			return viol("the supplied function %s, which the deciding importer of the chain supplies, was not executed (call log %v)", want, callLog)
 		}
 	}
 	// 2. every native call of the VM is inside the allow set
@@ -375,6 +408,14 @@ func (discard) Write(p []byte) (int, error) { return len(p), nil }
 
 // probeClass shortens a probe to its class for signatures.
 func probeClass(p string) string {
+	if strings.HasPrefix(p, "import-path-derived-from-supplied:") {
+		// keep the supplied path, the form and the role; drop the derived path
+		rest := strings.TrimPrefix(p, "import-path-derived-from-supplied:")
+		src := rest[:strings.Index(rest, "->")]
+		i := strings.LastIndex(rest, "/")
+		j := strings.LastIndex(rest[:i], "/")
+		return "import-path-derived-from-supplied/" + src + rest[j:]
+	}
 	if strings.HasPrefix(p, "import-unsupplied:") {
 		rest := strings.TrimPrefix(p, "import-unsupplied:")
 		form := "plain"
